@@ -21,7 +21,7 @@ WORKLOADS = ["W1x64", "W1x86", "W1a64", "W1r", "W2fin", "W2ser", "W3x64", "W3x86
 COLD = ["W4", "W4dual", "W4nomemfd"]          # vm class additionally with NOTHING warmed up (one case per process)
 CLASSES = ["arena", "heap", "vm"]
 
-GENERIC = re.compile(r"^(asmjit::v\d+_\d+::)?(Arena::|ArenaVectorBase::|ArenaHashBase::|ArenaBitSet::|ArenaStringBase::|"
+GENERIC = re.compile(r"^(asmjit::v\d+_\d+::)?(Arena::|ArenaVector_|ArenaVectorBase::|ArenaHashBase::|ArenaBitSet::|ArenaStringBase::|"
                      r"ArenaPool<|ArenaVector<|ArenaHash<|ArenaString<|String::|StringTmp<|Arena_|__wrap_|arena_fail_hook)")
 
 
@@ -32,26 +32,41 @@ def build_exe():
 # -- symbolisation -------------------------------------------------------------------------------------------
 
 class Symbolizer:
+    """pc offsets -> [(function, file:line), ...] innermost inlined frame first (addr2line -i)."""
+
     def __init__(self, exe):
         self.exe = exe
         self.cache = {}
-        with open(exe, "rb") as fh:
-            hdr = fh.read(20)
-        self.pie = hdr[16] == 3
 
     def resolve(self, offsets):
-        """offsets: pc - exe_base of return addresses. Returns {offset: (function, file:line)}."""
         todo = sorted({o for o in offsets if o and o not in self.cache})
         for i in range(0, len(todo), 2000):
             part = todo[i:i + 2000]
             addrs = ["0x%x" % (o - 1) for o in part]   # return address - 1 = inside the call instruction
-            p = subprocess.run(["addr2line", "-f", "-C", "-e", self.exe] + addrs, stdout=subprocess.PIPE, stderr=subprocess.DEVNULL, text=True)
-            lines = p.stdout.splitlines()
-            for j, o in enumerate(part):
-                fn = lines[2 * j] if 2 * j < len(lines) else "??"
-                loc = lines[2 * j + 1] if 2 * j + 1 < len(lines) else "??"
-                self.cache[o] = (short_fn(fn), os.path.basename(loc.split(" ")[0]))
-        return {o: self.cache.get(o, ("??", "??")) for o in offsets if o}
+            p = subprocess.run(["addr2line", "-a", "-i", "-f", "-C", "-e", self.exe] + addrs, stdout=subprocess.PIPE, stderr=subprocess.DEVNULL, text=True)
+            cur, pend = None, None
+            for ln in p.stdout.splitlines():
+                if ln.startswith("0x") and " " not in ln.strip():
+                    cur = int(ln.strip(), 16) + 1
+                    self.cache[cur] = []
+                    pend = None
+                elif cur is not None:
+                    if pend is None:
+                        pend = ln
+                    else:
+                        self.cache[cur].append((short_fn(pend), os.path.basename(ln.split(" ")[0])))
+                        pend = None
+            for o in part:
+                if not self.cache.get(o):
+                    self.cache[o] = [("??", "??")]
+
+    def frames(self, pcs):
+        """Flattened call chain (innermost first) for a list of pc offsets."""
+        out = []
+        for p in pcs:
+            if p:
+                out.extend(self.cache.get(p, [("??", "??")]))
+        return out
 
 
 def short_fn(fn):
@@ -71,16 +86,30 @@ def short_fn(fn):
     return s or fn[:60]
 
 
+HARNESS_FRAMES = ("fault_point", "walk_frames", "arena_fail_hook", "__wrap_")
+
+
+def _is_harness(fn, loc):
+    return loc.startswith("drv_oom.cpp") or loc.startswith("vcommon.h") or fn in ("main", "run_case", "_start", "??") or fn.startswith("main::")
+
+
+def chain_of(sym, pcs):
+    """Call chain of a request without the wrapper / hook frames (innermost first)."""
+    fr = sym.frames(pcs)
+    while fr and fr[0][0].startswith(HARNESS_FRAMES):
+        fr = fr[1:]
+    return fr
+
+
 def site_function(sym, pcs):
     """The function whose null check is exercised: innermost asmjit frame that is not a generic allocation helper;
     when the request comes straight from the harness (W5/W6), the outermost helper."""
-    names = [sym.cache.get(p, ("??", "??")) for p in pcs if p]
-    names = [n for n in names if not n[0].startswith(HARNESS_FRAMES)]
+    names = chain_of(sym, pcs)
     if not names:
         return "?"
     last_generic = None
     for fn, loc in names:
-        if loc.startswith("drv_oom.cpp") or fn in ("main", "run_case") or fn.startswith("W") and "::" in fn and loc.startswith("drv_"):
+        if _is_harness(fn, loc):
             break
         if GENERIC.match(fn):
             last_generic = fn
@@ -90,57 +119,233 @@ def site_function(sym, pcs):
 
 
 CRASH_GENERIC = re.compile(r"^(ArenaTree::|ArenaVector::|ArenaVectorBase::|ArenaHashBase::|ArenaHash::|operator|Support::|loadu|storeu|"
-                           r"__|mem|std::|ConstPool::Tree::|Arena::ManagedBlock::|lower_bound|CodeWriterUtils::|Section::|LabelEntry::)")
+                           r"__|mem|std::|ConstPool::Tree::|Arena::ManagedBlock::|lower_bound|CodeWriterUtils::|Section::|LabelEntry::|CodeHolder_add_text_section)")
 
 
-def crash_function(rep):
+def crash_function(sym, rep):
     """First non-generic asmjit frame of a sanitizer report (the function whose missing check let the process die)."""
-    if not rep or not rep["frames"]:
+    if not rep or not rep["offs"]:
         return "?"
     cands = []
-    for f in rep["frames"]:
-        if "/verif/drv/" in f:
+    for fn, loc in sym.frames(rep["offs"]):
+        if _is_harness(fn, loc):
             break
-        name = short_fn(f.split(" /")[0])
-        if "/repo/" in f or "asmjit" in f:
-            cands.append(name)
+        cands.append(fn)
     for n in cands:
-        if not CRASH_GENERIC.match(n):
+        if not CRASH_GENERIC.match(n) and n != "??":
             return n
-    return cands[-1] if cands else short_fn(rep["frames"][0].split(" /")[0])
+    return cands[-1] if cands else "?"
+
+
+def report_frames(sym, rep):
+    return ["%s %s" % f for f in sym.frames(rep["offs"] if rep else [])][:10]
 
 
 def api_function(sym, pcs):
     """Outermost asmjit function of a request's call chain = the API call that was in progress."""
-    names = [sym.cache.get(p, ("??", "??")) for p in pcs if p]
-    names = [n for n in names if not n[0].startswith(HARNESS_FRAMES)]
     last = None
+    names = chain_of(sym, pcs)
     for fn, loc in names:
-        if loc.startswith("drv_oom.cpp") or fn in ("main", "run_case", "??"):
+        if _is_harness(fn, loc):
             break
         last = fn
     return last or (names[0][0] if names else "?")
 
 
 def site_chain(sym, pcs):
-    names = [sym.cache.get(p, ("??", "??"))[0] for p in pcs if p]
-    return "<-".join(n for n in names if not n.startswith(HARNESS_FRAMES))
+    out = []
+    for fn, loc in chain_of(sym, pcs):
+        out.append(fn)
+        if fn == "run_case":
+            break
+    return "<-".join(out[:14])
+
+
+# -- "completes correctly" for register allocation: same code up to the placement of spill slots --------------------------
+# An allocation failure inside RA's lazy spill-slot creation is swallowed by asmjit; the slot is then created at the next
+# use, i.e. in another order, and the frame layout changes. Such code is different but correct. The oracle below accepts a
+# silent byte difference only if, function by function, both images decode (objdump / llvm-mc, independent of asmjit) to
+# the same instruction sequence once sp/fp-relative displacements are renamed bijectively and branch targets are expressed
+# as instruction indices. Anything else stays a violation.
+
+BASES = {"x64": 0x00007F3300010000, "x86": 0x08040000, "a64": 0x00007F3300010000}
+FUNC_LABELS = ("f1", "f1v", "f2", "f3", "f4", "g1", "g2", "g3")
+
+
+def _parse_main(main):
+    img, labels = None, {}
+    for part in main.split(";"):
+        if "=" not in part:
+            continue
+        k, v = part.split("=", 1)
+        if k == "image":
+            img = bytes.fromhex(v)
+        elif k in FUNC_LABELS and v.isdigit():
+            labels[k] = int(v)
+    return img, labels
+
+
+def _decode(arch, data, vma):
+    """-> [(address, text)]"""
+    if arch in ("x64", "x86"):
+        import tempfile
+        with tempfile.NamedTemporaryFile(dir=os.path.join(common.VERIF, ".cache"), suffix=".bin", delete=False) as fh:
+            fh.write(data)
+            path = fh.name
+        try:
+            p = subprocess.run(["objdump", "-D", "-b", "binary", "-m", "i386:x86-64" if arch == "x64" else "i386", "-M", "intel",
+                                "--no-show-raw-insn", "--adjust-vma=0x%x" % vma, path], stdout=subprocess.PIPE, stderr=subprocess.DEVNULL, text=True)
+        finally:
+            os.unlink(path)
+        out = []
+        for ln in p.stdout.splitlines():
+            m = re.match(r"^\s*([0-9a-f]+):\s+(.*)$", ln)
+            if m:
+                out.append((int(m.group(1), 16), re.sub(r"\s+", " ", m.group(2).strip())))
+        return out
+    txt = " ".join("0x%02x" % b for b in data)
+    p = subprocess.run(["llvm-mc", "--disassemble", "--triple=aarch64", "-mattr=+v8.5a,+neon,+fp-armv8"], input=txt, stdout=subprocess.PIPE, stderr=subprocess.DEVNULL, text=True)
+    lines = [re.sub(r"\s+", " ", ln.strip()) for ln in p.stdout.splitlines() if ln.strip() and not ln.strip().startswith(".")]
+    return [(vma + 4 * i, t) for i, t in enumerate(lines)]
+
+
+_X86_STK = re.compile(r"\[(rsp|esp|rbp|ebp)([+-]0x[0-9a-f]+)?\]")
+_X86_ADJ = re.compile(r"^(sub|add) (rsp|esp),0x[0-9a-f]+$")
+_A64_STK = re.compile(r"\[(sp|x29)(?:, #(-?(?:0x[0-9a-f]+|\d+)))?\]")
+_A64_ADJ = re.compile(r"^(sub|add) sp, sp, #(0x[0-9a-f]+|\d+)(, lsl #12)?$")
+_ADDR = re.compile(r"0x[0-9a-f]{3,}")
+
+
+def _normalise(arch, insts, seg_lo, seg_hi):
+    """Cuts the function at its last return, expresses in-function addresses as instruction indices, addresses in the
+    data tail of the function as DATA; returns (texts, stack refs per instruction)."""
+    is_ret = (lambda t: t == "ret" or t.startswith("ret ")) if arch != "a64" else (lambda t: t == "ret")
+    last = max((i for i, (a, t) in enumerate(insts) if is_ret(t)), default=-1)
+    if last < 0:
+        return None
+    code = insts[:last + 1]
+    code_end = insts[last + 1][0] if last + 1 < len(insts) else seg_hi
+    index = {a: i for i, (a, t) in enumerate(code)}
+    stk, adj = (_X86_STK, _X86_ADJ) if arch != "a64" else (_A64_STK, _A64_ADJ)
+    texts, refs = [], []
+    for a, t in code:
+        t = t.split(" #")[0].strip() if arch != "a64" else t.split(" //")[0].strip()     # drop objdump's "# 0x..." comments
+        if arch == "a64":
+            # llvm-mc prints pc-relative branch targets as "#imm" (bytes): make them instruction indices
+            m = re.search(r"#(-?\d+)$", t)
+            if m and re.match(r"^(b|bl|b\.\w+|cbz|cbnz|tbz|tbnz|adr) ", t):
+                tgt = a + int(m.group(1))
+                t = t[:m.start()] + ("@%d" % index[tgt] if tgt in index else "DATA" if code_end <= tgt < seg_hi else "#%d" % int(m.group(1)))
+        else:
+            t = re.sub(r"\[rip[+-]0x[0-9a-f]+\]", "[RIP]", t)
+
+            def addr(m):
+                v = int(m.group(0), 16)
+                if v in index:
+                    return "@%d" % index[v]
+                if code_end <= v < seg_hi:
+                    return "DATA"
+                return m.group(0)
+            if not stk.search(t):
+                t = _ADDR.sub(addr, t)
+        if adj.match(t):
+            t = t.split(",")[0] + ",FRAME"
+        refs.append(stk.findall(t))
+        texts.append(stk.sub("[STK]", t))
+    return texts, refs
+
+
+def same_code_up_to_stack_layout(arch, main_a, main_b):
+    try:
+        img_a, lab_a = _parse_main(main_a)
+        img_b, lab_b = _parse_main(main_b)
+        if not img_a or not img_b or sorted(lab_a) != sorted(lab_b) or not lab_a:
+            return False
+        base = BASES[arch]
+        names = sorted(lab_a, key=lambda n: lab_a[n])
+        if names != sorted(lab_b, key=lambda n: lab_b[n]):
+            return False
+        for i, n in enumerate(names):
+            hi_a = lab_a[names[i + 1]] if i + 1 < len(names) else len(img_a)
+            hi_b = lab_b[names[i + 1]] if i + 1 < len(names) else len(img_b)
+            da = _decode(arch, img_a[lab_a[n]:hi_a], base + lab_a[n])
+            db = _decode(arch, img_b[lab_b[n]:hi_b], base + lab_b[n])
+            na = _normalise(arch, da, base + lab_a[n], base + hi_a)
+            nb = _normalise(arch, db, base + lab_b[n], base + hi_b)
+            if na is None or nb is None or na[0] != nb[0]:
+                return False
+            fwd, bwd, ctx = {}, {}, 0
+            for text, ra, rb in zip(na[0], na[1], nb[1]):
+                if len(ra) != len(rb):
+                    return False
+                for (ga, oa), (gb, ob) in zip(ra, rb):
+                    if ga != gb or fwd.setdefault((ctx, ga, oa), ob) != ob or bwd.setdefault((ctx, gb, ob), oa) != oa:
+                        return False
+                # every instruction that moves the stack pointer opens a new naming context for sp-relative offsets
+                if text.endswith(",FRAME") or text.endswith("]!") or re.search(r"\], #-?\d+$", text) or re.match(r"^(push|pop|call|leave)\b", text):
+                    ctx += 1
+        return True
+    except Exception:
+        return False
+
+
+def arch_of(w):
+    return "x64" if w.startswith("W3x64") else "x86" if w.startswith("W3x86") else "a64" if w.startswith("W3a64") else None
 
 
 # -- child handling -----------------------------------------------------------------------------------------
 
-MARK = re.compile(r"^@case (\S+) (\S+) (\S+) (\S+) (\d+) (\d+) (\d+)$", re.M)
-FSITE = re.compile(r"^@fired (\d+)((?: \d+)+)$", re.M)
-HARNESS_FRAMES = ("fault_point", "walk_frames", "arena_fail_hook", "__wrap_")
+MARK = re.compile(r"^@case (\S+) (\S+) (\S+) (\S+) (\d+) (\d+) (\d+)$")
+FSITE = re.compile(r"^@fired (\d+)((?: \d+)+)$")
+FRAME = re.compile(r"^\s+#(\d+) 0x[0-9a-f]+\s+\((\S+)\+0x([0-9a-f]+)\)")
+DIED = re.compile(r"^@worker-died case=(\d+) status=(-?\d+) signal=(\d+)$")
+EXITF = re.compile(r"^@worker-exit-failed first=(\d+) last=(\d+) status=(-?\d+) signal=(\d+)$")
+
+SAN_EXTRA = {
+    "ASAN_OPTIONS": common.SAN_ENV["ASAN_OPTIONS"] + ":symbolize=0",
+    "UBSAN_OPTIONS": common.SAN_ENV["UBSAN_OPTIONS"] + ":symbolize=0",
+}
 
 
-def crash_kind(rep, err):
+def parse_report(lines):
+    """Unsymbolised sanitizer report -> {kind, offs (driver-relative pcs of the first stack), text}."""
+    kind = None
+    offs = []
+    in_first_stack = False
+    for ln in lines:
+        if kind is None:
+            if "ERROR: AddressSanitizer" in ln or "ERROR: LeakSanitizer" in ln:
+                kind = ln.split("ERROR:")[1].strip()
+            elif "runtime error:" in ln:
+                kind = "UBSan " + ln.split("runtime error:")[1].strip() + " @" + os.path.basename(ln.split(": runtime error:")[0])
+            continue
+        m = FRAME.match(ln)
+        if m:
+            if int(m.group(1)) == 0 and offs:
+                break        # second stack (allocation / free site)
+            in_first_stack = True
+            if os.path.basename(m.group(2)) == "drv_oom":
+                off = int(m.group(3), 16)
+                offs.append(off + 1 if int(m.group(1)) == 0 else off)   # Symbolizer looks up pc-1
+            else:
+                offs.append(0)
+        elif in_first_stack and not ln.strip():
+            break
+    if kind is None:
+        return None
+    kind = re.sub(r"0x[0-9a-f]+", "0x..", kind)
+    return {"kind": kind[:300], "offs": offs[:12], "text": "\n".join(lines)[-2500:]}
+
+
+def crash_kind(rep, text=""):
     k = rep["kind"] if rep else ""
-    if "null pointer" in k or ("SEGV" in k and re.search(r"address 0x0000000000[0-9a-f]{2}\b", err or "")):
+    if "null pointer" in k:
+        return "null-deref"
+    if "SEGV" in k and re.search(r"unknown address 0x0000000000[0-9a-f]{2}\b|address 0x0+\b", text or ""):
         return "null-deref"
     for pat, name in (("heap-use-after-free", "use-after-free"), ("double-free", "double-free"), ("heap-buffer-overflow", "heap-overflow"),
-                      ("SEGV", "segv"), ("LeakSanitizer", "lsan-leak"), ("stack-", "stack-error"), ("UBSan", "ubsan"),
-                      ("bad-free", "bad-free"), ("negative-size", "negative-size-param")):
+                      ("SEGV", "segv"), ("LeakSanitizer", "lsan-leak"), ("stack-", "stack-error"), ("bad-free", "bad-free"),
+                      ("negative-size", "negative-size-param"), ("UBSan", "ubsan")):
         if pat in k:
             return name
     return "abort"
@@ -151,14 +356,12 @@ class Runner:
         self.chk, self.exe, self.seed = chk, exe, seed
         self.sym = Symbolizer(exe)
         self.results = []       # driver summaries
-        self.crashes = []       # dicts
-        self.lost_cases = 0
+        self.crashes = []       # dicts: w, cls, mode, pattern, argv (replay of the case alone), site, rep, confirmed
         self.children = 0
-        self.confirmed = set()
 
     def child(self, argv, timeout=1800):
         self.children += 1
-        rc, out, err = common.run_child([self.exe] + argv, timeout=timeout)
+        rc, out, err = common.run_child([self.exe] + argv, timeout=timeout, env=SAN_EXTRA)
         err = err.decode("utf-8", "replace")
         res = None
         try:
@@ -168,96 +371,65 @@ class Runner:
             res = None
         return rc, res, err
 
-    def base_args(self, w, cls, mode):
-        return ["--workload", w, "--class", cls, "--mode", mode, "--seed", str(self.seed)]
+    def base_args(self, w, cls, mode, seed=None):
+        return ["--workload", w, "--class", cls, "--mode", mode, "--seed", str(self.seed if seed is None else seed)]
 
-    def count(self, w, cold=False):
-        rc, res, err = self.child(self.base_args(w, "arena", "count") + (["--cold"] if cold else []))
+    def count(self, w, cold=False, seed=None):
+        rc, res, err = self.child(self.base_args(w, "arena", "count", seed) + (["--cold"] if cold else []))
         if res is None or not res.get("harness_ok"):
             raise common.HarnessError("counting run of %s failed (rc=%s): %s" % (w, rc, err[-1500:]))
         return res
 
-    def analyse_crash(self, w, cls, mode, argv, rc, err):
-        """Returns dict(case marker fields, sanitizer report, fault site) for a child that died."""
-        marks = MARK.findall(err)
-        rep = common.sanitizer_report(err)
-        site = None
-        last = marks[-1] if marks else None
-        tail_from = err.rfind("@case ")
-        fs = FSITE.findall(err[tail_from:] if tail_from >= 0 else err)
-        if fs:
-            site = [int(x) for x in fs[0][1].split()]
-        return {"mark": last, "rep": rep, "site": site, "rc": rc, "tail": err[-3000:]}
+    def replay_argv(self, w, cls, mark, extra=(), seed=None):
+        mode, pattern, style, strat = mark[2], mark[3], mark[5], mark[6]
+        if mode == "pattern":
+            return self.base_args(w, cls, "pattern", seed) + ["--pat", pattern, "--stop", style, "--strategy", strat]
+        return self.base_args(w, cls, mode, seed) + ["--from", pattern, "--to", pattern] + list(extra)
 
-    def run_range(self, w, cls, mode, a, b, extra=()):
-        """single / sticky over k in [a, b]; restarts behind a case that killed the child."""
-        k = a
-        while k <= b:
-            argv = self.base_args(w, cls, mode) + ["--from", str(k), "--to", str(b)] + list(extra)
-            rc, res, err = self.child(argv)
-            if res is not None and rc in (0,):
-                self.results.append(res)
-                return
-            if res is not None and rc == 3:
-                raise common.HarnessError("driver %s: harness self-check failed: %s" % (argv, err[-1500:]))
-            info = self.analyse_crash(w, cls, mode, argv, rc, err)
-            if info["mark"] is None or info["mark"][2] == "count":
-                raise common.HarnessError("driver %s died (rc=%s) outside an armed case: %s" % (argv, rc, err[-2000:]))
-            kk = int(info["mark"][4])
-            self.lost_cases += max(0, kk - k)
-            argv1 = self.base_args(w, cls, mode) + ["--from", str(kk), "--to", str(kk)] + list(extra)
-            sig = (group_of(w), cls, crash_function(info["rep"]), crash_kind(info["rep"], info["tail"]))
-            if sig in self.confirmed:
-                # same symptom as an already confirmed case of this workload group: counted, not re-run alone
-                self.crashes.append({"w": w, "cls": cls, "mode": mode, "k": kk, "argv": argv1, "info": info, "alone": True, "dup": True})
-                k = kk + 1
+    def scan(self, w, cls, err, extra=(), whole_process_died=False, range_argv=None, seed=None):
+        """Walks the child's stderr: every case a sanitizer killed becomes a crash record."""
+        found = []
+        mark, site, buf = None, None, []
+        for ln in err.splitlines():
+            m = MARK.match(ln)
+            if m:
+                mark, site, buf = m.groups(), None, []
                 continue
-            # confirm: the case alone, in a fresh process
-            rc1, res1, err1 = self.child(argv1)
-            if res1 is None:
-                self.confirmed.add(sig)
-                info1 = self.analyse_crash(w, cls, mode, argv1, rc1, err1)
-                self.crashes.append({"w": w, "cls": cls, "mode": mode, "k": kk, "argv": argv1, "info": info1, "alone": True})
-            else:
-                # not reproducible alone: bisect the prefix [k, kk] for the shortest range ending in kk that still dies
-                lo, hi = k, kk
-                while lo < hi:
-                    mid = (lo + hi + 1) // 2
-                    argv2 = self.base_args(w, cls, mode) + ["--from", str(mid), "--to", str(kk)] + list(extra)
-                    rc2, res2, err2 = self.child(argv2)
-                    if res2 is None:
-                        lo = mid
-                    else:
-                        hi = mid - 1
-                argv2 = self.base_args(w, cls, mode) + ["--from", str(lo), "--to", str(kk)] + list(extra)
-                self.crashes.append({"w": w, "cls": cls, "mode": mode, "k": kk, "argv": argv2, "info": info, "alone": False})
-                self.results.append(res1)
-            k = kk + 1
+            m = FSITE.match(ln)
+            if m:
+                site = [int(x) for x in m.group(2).split()]
+                continue
+            if DIED.match(ln):
+                if mark is None or mark[2] == "count":
+                    raise common.HarnessError("a worker of %s/%s died outside an armed case: %s" % (w, cls, "\n".join(buf)[-1500:]))
+                found.append({"w": w, "cls": cls, "mode": mark[2], "pattern": mark[3], "argv": self.replay_argv(w, cls, mark, extra, seed),
+                              "site": site, "rep": parse_report(buf), "tail": "\n".join(buf)[-1500:]})
+                mark, site, buf = None, None, []
+                continue
+            m = EXITF.match(ln)
+            if m:
+                found.append({"w": w, "cls": cls, "mode": "exit-check", "pattern": "%s..%s" % (m.group(1), m.group(2)), "argv": range_argv,
+                              "site": None, "rep": parse_report(buf), "tail": "\n".join(buf)[-1500:], "exit_check": True})
+                buf = []
+                continue
+            buf.append(ln)
+        if whole_process_died:
+            if mark is None or mark[2] == "count":
+                raise common.HarnessError("driver for %s/%s died outside an armed case: %s" % (w, cls, err[-2000:]))
+            found.append({"w": w, "cls": cls, "mode": mark[2], "pattern": mark[3], "argv": range_argv or self.replay_argv(w, cls, mark, extra, seed),
+                          "site": site, "rep": parse_report(buf), "tail": "\n".join(buf)[-1500:]})
+        self.crashes.extend(found)
 
-    def run_patterns(self, w, cls, cases):
-        skip = 0
-        while skip < cases:
-            argv = self.base_args(w, cls, "pattern") + ["--cases", str(cases), "--skip", str(skip)]
-            rc, res, err = self.child(argv)
-            if res is not None and rc == 0:
-                self.results.append(res)
-                return
-            if res is not None and rc == 3:
-                raise common.HarnessError("driver %s: harness self-check failed: %s" % (argv, err[-1500:]))
-            info = self.analyse_crash(w, cls, "pattern", argv, rc, err)
-            if info["mark"] is None or info["mark"][2] == "count":
-                raise common.HarnessError("driver %s died (rc=%s) outside an armed case: %s" % (argv, rc, err[-2000:]))
-            m = info["mark"]
-            idx = int(m[4])
-            argv1 = self.base_args(w, cls, "pattern") + ["--pat", m[3], "--stop", m[5], "--strategy", m[6]]
-            rc1, res1, err1 = self.child(argv1)
-            if res1 is None:
-                info = self.analyse_crash(w, cls, "pattern", argv1, rc1, err1)
-                self.crashes.append({"w": w, "cls": cls, "mode": "pattern", "k": m[3], "argv": argv1, "info": info, "alone": True})
-            else:
-                self.crashes.append({"w": w, "cls": cls, "mode": "pattern", "k": m[3], "argv": argv, "info": info, "alone": False})
-            self.lost_cases += max(0, idx - skip)
-            skip = idx + 1
+    def run_job(self, w, cls, argv_tail, extra=(), seed=None):
+        argv = self.base_args(w, cls, argv_tail[0], seed) + list(argv_tail[1:]) + list(extra)
+        rc, res, err = self.child(argv)
+        if res is not None and rc == 3:
+            raise common.HarnessError("driver %s: harness self-check failed: %s" % (argv, err[-1500:]))
+        if res is None:
+            raise common.HarnessError("driver %s produced no summary (rc=%s): %s" % (argv, rc, err[-2000:]))
+        res["seed"] = self.seed if seed is None else seed
+        self.results.append(res)
+        self.scan(w, cls, err, extra=extra, range_argv=argv, seed=seed)
 
     def run_cold(self, w, cls, k):
         argv = self.base_args(w, cls, "single") + ["--cold", "--from", str(k), "--to", str(k)]
@@ -268,8 +440,16 @@ class Runner:
             return
         if res is not None and rc == 3:
             raise common.HarnessError("driver %s: harness self-check failed: %s" % (argv, err[-1500:]))
-        info = self.analyse_crash(w, cls, "single", argv, rc, err)
-        self.crashes.append({"w": w, "cls": cls, "mode": "single-cold", "k": k, "argv": argv, "info": info, "alone": True})
+        self.scan(w, cls, err, whole_process_died=True, range_argv=argv)
+
+    def confirm(self, c):
+        """Re-runs a killed case alone in a fresh process. True when it dies again."""
+        if c.get("exit_check") or c["argv"] is None:
+            return False
+        rc, res, err = self.child(c["argv"])
+        if res is None:
+            return True
+        return bool(res.get("workers_killed"))
 
 
 def group_of(w):
@@ -281,86 +461,81 @@ def run(tier, args):
     exe = build_exe()
     R = Runner(chk, exe, chk.seed)
     scale = args.scale
+    counts, cold_counts = {}, {}
 
     if args.replay:
         rp = json.load(open(args.replay))
         argv = rp["case"]["argv"]
-        rc, res, err = R.child(argv)
         w = argv[argv.index("--workload") + 1]
         cls = argv[argv.index("--class") + 1]
-        if res is None:
-            R.crashes.append({"w": w, "cls": cls, "mode": "replay", "k": "?", "argv": argv, "info": R.analyse_crash(w, cls, "replay", argv, rc, err), "alone": True})
+        if "--cold" in argv:
+            R.run_cold(w, cls, int(argv[argv.index("--from") + 1]))
         else:
-            R.results.append(res)
-        counts = {}
+            mode = argv[argv.index("--mode") + 1]
+            tail = [a for a in argv[argv.index("--mode") + 2:] if True]
+            tail = [a for i, a in enumerate(argv) if i > argv.index("--mode") + 1 and not (a == "--seed" or argv[i - 1] == "--seed")]
+            R.seed = int(argv[argv.index("--seed") + 1]) if "--seed" in argv else R.seed
+            R.run_job(w, cls, [mode] + tail)
     else:
         # ---- 1. counting runs --------------------------------------------------------------------------------
         workloads = WORKLOADS
         cres = common.parallel_map(lambda w: (w, R.count(w)), workloads)
         counts = {w: r["N"] for w, r in cres}
-        wrapper_calls = sum(r["heap_wrapper_calls"] for w, r in cres)
-        if wrapper_calls == 0:
+        if sum(r["heap_wrapper_calls"] for w, r in cres) == 0 or not any(r["N"]["heap"] for w, r in cres):
             raise common.HarnessError("the malloc wrappers never saw a call: --wrap does not intercept asmjit in this build")
-        cold_counts = {w: R.count(w, cold=True)["N"] for w in COLD}
-        # request sites of the failure-free runs
+        cold_counts = dict(common.parallel_map(lambda w: (w, R.count(w, cold=True)["N"]), COLD))
         for w, r in cres:
             r["_count_only"] = True
             R.results.append(r)
 
         # ---- 2. job list ---------------------------------------------------------------------------------------
         jobs = []
-        rng = common.Rng(chk.seed)
-        batch = 250
-        for w in workloads:
-            for cls in CLASSES:
-                n = counts[w][cls]
-                if not n:
-                    continue
-                lim = n if scale >= 1 else max(1, int(n * scale))
-                for mode in ("single", "sticky"):
-                    a = 1
-                    while a <= lim:
-                        b = min(lim, a + batch - 1)
-                        jobs.append(("range", w, cls, mode, a, b))
-                        a = b + 1
-                npat = {"quick": 60, "thorough": 4000}[tier]
-                if cls == "vm":
-                    npat = {"quick": 40, "thorough": 600}[tier]
-                npat = max(1, int(npat * scale))
-                if n >= 2:
-                    jobs.append(("pattern", w, cls, npat))
-        for w in COLD:
-            n = cold_counts[w]["vm"]
-            for k in range(1, n + 1):
-                jobs.append(("cold", w, "vm", k))
+        batch = 400
+        shapes = [(chk.seed, counts)]
         if tier == "thorough":
-            # single-failure enumeration again in "stop at the first error" style, and other seeds' workload shapes
+            # the same enumeration for two more workload shapes (program sizes, register counts, ... derive from the seed)
+            for extra_seed in (chk.seed + 1000, chk.seed + 2000):
+                cr = common.parallel_map(lambda w: (w, R.count(w, seed=extra_seed)), workloads)
+                shapes.append((extra_seed, {w: r["N"] for w, r in cr}))
+        for sd, cnt in shapes:
             for w in workloads:
                 for cls in CLASSES:
-                    n = counts[w][cls]
-                    a = 1
-                    while a <= n:
-                        b = min(n, a + batch - 1)
-                        jobs.append(("range-stop", w, cls, "single", a, b))
-                        a = b + 1
-        # long jobs first
-        jobs.sort(key=lambda j: -(j[5] - j[4] + 1 if j[0].startswith("range") else j[3] if j[0] == "pattern" else 1))
+                    n = cnt[w][cls]
+                    if not n:
+                        continue
+                    lim = n if scale >= 1 else max(1, int(n * scale))
+                    for mode in ("single", "sticky", "twin"):
+                        a = 1
+                        while a <= lim:
+                            b = min(lim, a + batch - 1)
+                            jobs.append((b - a + 1, w, cls, [mode, "--from", str(a), "--to", str(b)], (), sd))
+                            a = b + 1
+                    npat = {"quick": 60, "thorough": 8000}[tier] if cls != "vm" else {"quick": 40, "thorough": 800}[tier]
+                    npat = max(1, int(npat * scale))
+                    if n >= 2:
+                        chunk = 500
+                        for skip in range(0, npat, chunk):
+                            jobs.append((min(chunk, npat - skip), w, cls, ["pattern", "--cases", str(min(npat, skip + chunk)), "--skip", str(skip)], (), sd))
+                    if tier == "thorough":
+                        # every k once more as a caller that stops at the first error it sees
+                        a = 1
+                        while a <= lim:
+                            b = min(lim, a + batch - 1)
+                            jobs.append((b - a + 1, w, cls, ["single", "--from", str(a), "--to", str(b)], ("--stop", "1"), sd))
+                            a = b + 1
+        cold_jobs = [(w, "vm", k) for w in COLD for k in range(1, cold_counts[w]["vm"] + 1)]
+        jobs.sort(key=lambda j: -j[0])
 
         def one(job):
-            if job[0] == "range":
-                R.run_range(job[1], job[2], job[3], job[4], job[5])
-            elif job[0] == "range-stop":
-                R.run_range(job[1], job[2], job[3], job[4], job[5], extra=["--stop", "1"])
-            elif job[0] == "pattern":
-                R.run_patterns(job[1], job[2], job[3])
+            if len(job) == 3:
+                R.run_cold(*job)
             else:
-                R.run_cold(job[1], job[2], job[3])
-            return None
+                R.run_job(job[1], job[2], job[3], extra=job[4], seed=job[5])
 
         import time as _t
         t_jobs = _t.time()
-        common.parallel_map(one, jobs)
-        chk.note("jobs: %d in %.1fs, children=%d" % (len(jobs), _t.time() - t_jobs, R.children))
+        common.parallel_map(one, jobs + cold_jobs)
+        chk.note("jobs: %d (+%d cold) in %.1fs, children=%d, cases killed by a sanitizer=%d" % (len(jobs), len(cold_jobs), _t.time() - t_jobs, R.children, len(R.crashes)))
 
     # ---- 3. symbolise --------------------------------------------------------------------------------------------
     pcs = set()
@@ -370,37 +545,66 @@ def run(tier, args):
         for v in res.get("violations", []):
             pcs.update(p for p in v["site"] if p)
     for c in R.crashes:
-        if c["info"]["site"]:
-            pcs.update(p for p in c["info"]["site"] if p)
+        if c["site"]:
+            pcs.update(p for p in c["site"] if p)
+        if c["rep"]:
+            pcs.update(p for p in c["rep"]["offs"] if p)
     R.sym.resolve(pcs)
 
     # ---- 4. verdicts ----------------------------------------------------------------------------------------------
+    by_key = {}
     for c in R.crashes:
-        info = c["info"]
-        rep = info["rep"]
-        kind = crash_kind(rep, info["tail"])
-        fn = site_function(R.sym, info["site"]) if info["site"] and any(info["site"]) else "?"
-        crash_in = crash_function(rep)
+        rep = c["rep"]
+        kind = crash_kind(rep, c["tail"])
+        crash_in = crash_function(R.sym, rep)
         key = "%s:%s:%s:%s" % (crash_in, kind, c["cls"], group_of(c["w"]))
-        what = ("%s, %s class, %s failure pattern %s: request failed in %s [%s]; then %s in %s; frames %s%s" %
-                (c["w"], c["cls"], c["mode"], c["k"], fn, site_chain(R.sym, info["site"] or []), rep["kind"] if rep else "process died rc=%s" % info["rc"],
-                 crash_in, rep["frames"][:6] if rep else info["tail"][-300:], "" if c["alone"] else " (only reproduces after the preceding cases of the batch)"))
-        chk.violation(key, what, {"argv": c["argv"]})
+        by_key.setdefault(key, []).append(c)
+    for key in sorted(by_key):
+        lst = by_key[key]
+        # prefer single-failure witnesses, smallest pattern; confirm the witness alone in a fresh process
+        lst.sort(key=lambda c: (c["mode"] != "single", len(c["pattern"]), c["pattern"]))
+        c = lst[0]
+        alone = R.confirm(c) if not args.replay else True
+        fn = site_function(R.sym, c["site"]) if c["site"] else "?"
+        rep = c["rep"]
+        what = ("%s, %s class, %s failure pattern %s (%d cases died like this): request failed in %s [%s]; then %s; stack: %s%s" %
+                (c["w"], c["cls"], c["mode"], c["pattern"], len(lst), fn, site_chain(R.sym, c["site"] or []),
+                 rep["kind"] if rep else "worker died without a report: " + c["tail"][-200:], report_frames(R.sym, rep),
+                 "" if alone else " (did not die when re-run alone: depends on the preceding cases of its batch)"))
+        chk.violation(key, what, None if args.replay else {"argv": c["argv"], "cases": len(lst)})
 
-    for res in R.results:
-        for v in res.get("violations", []):
+    equivalent_layouts = 0
+    order = {"single": 0, "twin": 1, "sticky": 2, "pattern": 3}
+    flat = [(order.get(v["mode"], 4), i, res, v) for i, res in enumerate(R.results) for v in res.get("violations", [])]
+    flat.sort(key=lambda t: (t[0], t[2]["workload"], len(t[3]["pattern"]), t[3]["pattern"]))
+    seen_kcg = set()
+    for _, _, res, v in flat:
+        if True:
+            if v["kind"] == "silent-wrong-output" and v.get("got_main") and arch_of(res["workload"]):
+                if same_code_up_to_stack_layout(arch_of(res["workload"]), v["got_main"], v["clean_main"]):
+                    equivalent_layouts += 1      # "completes correctly": spill slots were created in another order
+                    continue
             fn = site_function(R.sym, v["site"]) if any(v["site"]) else "?"
-            key = "%s:%s:%s:%s" % (api_function(R.sym, v["site"]) if any(v["site"]) else "?", v["kind"], v["class"], group_of(res["workload"]))
-            argv = ["--workload", res["workload"], "--class", v["class"], "--seed", str(chk.seed)]
+            kcg = (v["kind"], v["class"], group_of(res["workload"]))
+            if v["mode"] in ("pattern", "sticky"):
+                # several failures: the first failed request says little about the cause; one key per (kind, class, group),
+                # and only when no single-failure witness of the same kind exists there
+                if kcg in seen_kcg:
+                    continue
+                key = "multi-failure:%s:%s:%s" % kcg
+            else:
+                key = "%s:%s:%s:%s" % (api_function(R.sym, v["site"]) if any(v["site"]) else "?", v["kind"], v["class"], group_of(res["workload"]))
+            seen_kcg.add(kcg)
+            argv = ["--workload", res["workload"], "--class", v["class"], "--seed", str(res.get("seed", chk.seed))]
             if v["mode"] == "pattern":
                 argv += ["--mode", "pattern", "--pat", v["pattern"]]
             else:
                 argv += ["--mode", v["mode"], "--from", v["pattern"], "--to", v["pattern"]]
             if res.get("cold"):
                 argv += ["--cold"]
-            what = "%s, %s class, %s failure pattern %s (%d cases alike): request failed in %s [%s]: %s" % (
-                res["workload"], v["class"], v["mode"], v["pattern"], v["count"], fn, site_chain(R.sym, v["site"]), v["what"])
-            chk.violation(key, what, {"argv": argv})
+            what = "%s, %s class, %s failure pattern %s: request failed in %s [%s]: %s" % (
+                res["workload"], v["class"], v["mode"], v["pattern"], fn, site_chain(R.sym, v["site"]), v["what"])
+            chk.violation(key, what, None if args.replay else {"argv": argv})
 
     # ---- 5. evidence ----------------------------------------------------------------------------------------------
     tot = {k: 0 for k in ("cases", "fired_cases", "reported", "tolerated", "not_fired", "retry_ok", "requests_failed")}
@@ -414,12 +618,12 @@ def run(tier, args):
             for k in tot:
                 tot[k] += res[k]
             d = per.setdefault(w, {}).setdefault(cls, {})
-            d[mode] = d.get(mode, 0) + res["cases"]
+            d[mode] = d.get(mode, 0) + res["cases"] + res.get("workers_killed", 0)
             for e, n in res.get("errors", {}).items():
                 errors[e] = errors.get(e, 0) + n
         for s in res.get("sites", []):
             cname = CLASSES[s["c"]]
-            chain = tuple(p for p in s["pc"] if p and not R.sym.cache.get(p, ("??",))[0].startswith(HARNESS_FRAMES))
+            chain = tuple(p for p in s["pc"] if p and not R.sym.cache.get(p, [("??", "??")])[0][0].startswith(HARNESS_FRAMES))
             fn = site_function(R.sym, s["pc"])
             if s["f"]:
                 key = (group_of(w), cname, fn, chain[0] if chain else 0)
@@ -433,17 +637,22 @@ def run(tier, args):
     for (g, c, fn) in distinct_fn:
         by_class[c] = by_class.get(c, 0) + 1
     samples = []
-    for (g, c, fn, pc), ent in sorted(failing_sites.items(), key=lambda kv: -kv[1]["n"])[:6]:
+    seen_gc = set()
+    for (g, c, fn, pc), ent in sorted(failing_sites.items(), key=lambda kv: (kv[0][1], kv[0][0], -kv[1]["n"])):
+        if (g, c) in seen_gc or len(samples) >= 10:
+            continue
+        seen_gc.add((g, c))
         samples.append({"workload_group": g, "class": c, "failed_request_in": fn, "call_chain": ent["chain"], "times_failed": ent["n"]})
     chk.coverage.update({
-        "evaluations": tot["cases"] + R.lost_cases + len(R.crashes),
+        "evaluations": tot["cases"] + len(R.crashes),
         "distinct_nontrivial": len(distinct_fn),
         "rule": "one evaluation = one workload run with one failure pattern armed (phase 1), followed by reset/reinit + retry on the same "
                 "objects and destruction with balance checks; distinct_nontrivial = distinct (workload group, fault class, function "
-                "containing the failed request - return address of the failed request symbolised with addr2line, generic allocation "
-                "helpers skipped) in which a failure was really injected",
+                "containing the failed request - call chain of the failed request from backtrace(), symbolised with addr2line, generic "
+                "allocation helpers skipped) in which a failure was really injected",
         "samples": samples,
         "N_requests_per_workload_and_class": counts,
+        "N_vm_requests_cold_process": {w: n["vm"] for w, n in cold_counts.items()},
         "cases_by_workload_class_mode": per,
         "distinct_failing_call_sites_by_return_address": len(failing_sites),
         "distinct_failing_functions_by_class": by_class,
@@ -452,22 +661,32 @@ def run(tier, args):
         "cases_error_reported": tot["reported"],
         "cases_failure_tolerated_output_identical": tot["tolerated"],
         "cases_pattern_not_reached": tot["not_fired"],
+        "cases_different_bytes_same_code_up_to_spill_slot_placement": equivalent_layouts,
         "retries_identical_to_failure_free": tot["retry_ok"],
         "requests_failed_total": tot["requests_failed"],
         "first_error_codes_reported": errors,
-        "children_killed_by_sanitizer": len(R.crashes),
+        "cases_killed_by_sanitizer": len(R.crashes),
+        "child_processes": R.children,
         "exhaustive": False,
     })
     chk.assumptions += [
-        "ASan+UBSan(+LSan at exit) build of /repo's working tree with -DASMJIT_VERIF; arena failures are injected through hook H1, heap and "
-        "virtual-memory failures through link-time --wrap (verified at run time: the wrappers count asmjit's malloc calls under ASan)",
-        "a request fails only while a workload's asmjit calls are in progress; munmap/close/unlink/free never fail (they are releases, only accounted)",
-        "single and sticky enumeration cover EVERY k in 1..N of the failure-free run of each listed workload; they are exhaustive for these "
-        "workloads and this seed's workload shape only, not for all programs",
+        "ASan+UBSan(+LSan at worker exit) build of /repo's working tree with -DASMJIT_VERIF; arena failures are injected through hook H1, heap "
+        "and virtual-memory failures through link-time --wrap (checked at run time: the wrappers count asmjit's malloc calls under ASan)",
+        "a request fails only while a workload's asmjit calls are in progress; munmap/close/unlink/free never fail (releases, only accounted)",
+        "single and sticky enumeration cover EVERY k in 1..N of the failure-free run of each listed workload; exhaustive for these workloads "
+        "and this seed's workload shapes only, not for all programs",
+        "caller model: emission calls are not checked one by one (ErrorHandler + returned codes are recorded); before finalize / flatten / "
+        "JitRuntime::add the caller stops if anything was reported; 'stop at first error' callers are the odd sticky k and the thorough tier",
         "process-wide lazily initialised state (CpuInfo::host, VirtMem::info, hardened-runtime and anonymous-memory-strategy detection) is warmed "
         "up before faults are injected, except in the 'cold' vm cases (one fresh process per k) of " + ",".join(COLD),
+        "an unreported failure inside the register allocator that changes bytes is accepted as 'completes correctly' only if objdump / llvm-mc "
+        "decode both images to the same instruction stream up to a bijective renaming of sp/fp-relative displacements; ConstPool offsets are "
+        "judged semantically (aligned, content present), their exact values only in the retry",
         "log text is compared in the retry only: logging is best effort and not part of 'the code'",
-        "the retry output is compared with the retry of a failure-free run using the same recover strategy (reset soft / reinit / reset hard)",
-        "W1/W2 avoid jumps to a label already bound in another section (asmjit corrupts that label's offset - reported to the lead, not C15)",
+        "the retry output is compared with the retry of a failure-free run using the same recover strategy (reset soft / reinit / reset hard); "
+        "a reinit of a holder that never completed relocate_to_base() is compared with a first run (reinit keeps the base address: documented)",
+        "neutralised in the harness because they are not allocation-failure matters (reported to the lead): BaseCompiler keeps _jump_annotations "
+        "across reset/reinit (C16); a jump/call to a label already bound in ANOTHER section corrupts the label offset (C03); "
+        "finalize()/serialize_to() on a builder without nodes dereferences null (C14); new_inst_node() leaves operands uninitialised",
     ]
     return chk.finish()
